@@ -487,6 +487,18 @@ func (prop) Execute(scAny any, phase string, log *core.Log) core.Result {
 				return res
 			}
 		}
+		// The polygon is the caller's: whatever the caller does to it must not
+		// show in the polygon of any other (or the same) box later on.
+		if poly != nil {
+			core.Guard(func() {
+				poly.SetSRID(4326 + i)
+				_ = poly.Push(geom.NewLinearRingFlat(geom.XY, []float64{7, 7, 8, 8, 9, 7, 7, 7}))
+				if fc := poly.FlatCoords(); len(fc) > 0 {
+					fc[0] = -12345
+				}
+			})
+			res.Count("probe:returned-polygon-scribbled", 1)
+		}
 		// the GeoJSON bounding box is the same box (non-empty geometries only:
 		// an empty box has no JSON representation)
 		if !empty && finite(m) {
